@@ -91,13 +91,39 @@ def tokText : JExpr.Tok → String
 
 def toksText (ts : List JExpr.Tok) : String := " ".intercalate (ts.map tokText)
 
+def tyText : JType → String
+  | .prim p => p.text
+  | .ref q => ".".intercalate q
+
+mutual
+/-- the Java tree as an S-expression (same notation as the javac tree dump of harness/c21_jexpr.py) -/
+def treeText : JExpr → String
+  | .intLit n => "(int " ++ toString n ++ ")"
+  | .longLit n => "(long " ++ toString n ++ ")"
+  | .null => "null"
+  | .this => "this"
+  | .name s => "(id " ++ s ++ ")"
+  | .paren e => "(paren " ++ treeText e ++ ")"
+  | .select e f => "(sel " ++ treeText e ++ " " ++ f ++ ")"
+  | .index a i => "(idx " ++ treeText a ++ " " ++ treeText i ++ ")"
+  | .call fn as => "(call " ++ treeText fn ++ treeTexts as ++ ")"
+  | .newObj q as => "(new " ++ ".".intercalate q ++ treeTexts as ++ ")"
+  | .newArr t n => "(newarr " ++ tyText t ++ " " ++ treeText n ++ ")"
+  | .unary o e => "(un " ++ (match o with | .neg => "-" | .plus => "+" | .compl => "~" | .not => "!") ++ " " ++ treeText e ++ ")"
+  | .cast t e => "(cast " ++ tyText t ++ " " ++ treeText e ++ ")"
+  | .bin o a b => "(bin " ++ o.text ++ " " ++ treeText a ++ " " ++ treeText b ++ ")"
+def treeTexts : List JExpr → String
+  | [] => ""
+  | a :: as => " " ++ treeText a ++ treeTexts as
+end
+
 def reply (e : DExpr) : String :=
   let ts := print e
   let p := match parse ts with
     | none => "none"
     | some j => if reprStr j == reprStr (toJava e) then "ok" else "differs"
   "wf=" ++ (if wf e then "1" else "0") ++ " level=" ++ toString (level e) ++ " parse=" ++ p ++
-    " toks=" ++ toksText ts
+    " ;; tree=" ++ treeText (toJava e) ++ " ;; toks=" ++ toksText ts
 
 end JX
 
